@@ -1,7 +1,7 @@
 #!/bin/bash
 # tools/runall.sh [tier]  — runs every check once, prints one line per property
 TIER="${1:-quick}"
-cd /verif
+cd "$(dirname "$0")/.."
 rc_all=0
 for i in 01 02 03 04 05 06 07 08 09 10 11 12 13 14 15 16 17 18 19; do
   OUT=$(timeout 7200 ./check C$i $TIER 2>&1); rc=$?
